@@ -22,7 +22,23 @@ def main():
         case = json.load(open(a.replay))
         sys.exit(mod.replay(case))
     rep = fw.Report(a.prop, a.tier, a.seed)
-    sys.exit(mod.check(rep))
+    try:
+        rc = mod.check(rep)
+    except BaseException as e:  # noqa -- a crash of the machinery itself: the property is not shown to hold on this tree
+        if isinstance(e, (KeyboardInterrupt, SystemExit)):
+            raise
+        import hashlib
+        import traceback
+        tb = traceback.format_exc()
+        d = os.path.join(fw.VERIF, "replays", a.prop)
+        os.makedirs(d, exist_ok=True)
+        f = os.path.join(d, "harness-" + hashlib.sha1(tb.encode()).hexdigest()[:12] + ".json")
+        json.dump({"property": a.prop, "stage": "harness", "what": f"the check itself failed with {type(e).__name__}: {str(e)[:300]}",
+                   "broken": "the run of harness/props/" + a.prop.lower() + ".py (no theorem or correspondence could be evaluated)", "traceback": tb[-4000:]}, open(f, "w"), indent=1)
+        print(tb[-1500:])
+        print(f"VIOLATION property={a.prop} replay={os.path.relpath(f, fw.VERIF)} no-failing-input-found")
+        rc = 1
+    sys.exit(rc)
 
 
 if __name__ == "__main__":
